@@ -47,6 +47,8 @@ def fam_loop():
             r.append(AA(["type"], ["script"], noattrs=True))
             r.append(call("AllowElementsMatching", pat="^sty"))
         if unskip: r.append(call("AllowElementsContent", names=["script", "style", "object"]))
+        # elements that are allowed through a pattern AND listed in the skip-content set
+        if spaces != comments: r.append(call("SkipElementsContent", names=["custom-x", "x-y", "b"]))
         recipes.append(r)
     # AllowUnsafe(true): script/style may pass and their bodies are written unescaped (conformance only: the
     # listed properties all exclude AllowUnsafe)
@@ -82,7 +84,7 @@ def fam_loop():
 def fam_loopq():
     f = fam_loop()
     # quick tier: 4 of the 16 recipes (every option on in at least one, off in at least one)
-    f["recipes"] = [f["recipes"][i] for i in (0, 6, 9, 15)]
+    f["recipes"] = [f["recipes"][i] for i in (0, 6, 9, 15)]   # 6 and 9 also have pattern-allowed elements in the skip set
     f["name"] = "loopq"
     return f
 
@@ -175,7 +177,8 @@ def fam_allow():
     lower, digits = "re:^[a-z]+$", "re:^[0-9]+$"
     base = [call("NewPolicy"),
             AA(["class"], ["span"], match=lower), AA(["CLASS"], [], match=digits), AA(["id"], []),
-            AA(["title"], pat="^custom-", noattrs=True), AA(["title"], pat="-x$", match="re:^t"),
+            AA(["title"], pat="^custom-", noattrs=True), AA(["title"], pat="-x$", match="re:^t"), AA(["rev"], pat="-x$"),
+            AA(["dir"], pat="^custom-", match="re:^(rtl|ltr)$"),
             AA(["lang"], ["custom-x"]), call("AllowElements", names=["B"]), AA(["href"], ["a"]),
             AA(["style"], ["span"])]
     recipes = [base, base + [call("AllowDataAttributes")],
@@ -184,7 +187,9 @@ def fam_allow():
     alpha = (av("class", ["abc", "123", "a1", " 123", "abc\n", "\tabc "]) + av("id", ["x"]) + av("title", ["tt", "zz"]) + av("lang", ["en"]) +
              av("onclick", ["x"]) + av("data-x", ["1"]) + av("data-a;b", ["1"]) + av("data-xmlq", ["1"]) + av("data-adata-;x", ["1"]) + av("data-data-xmlq", ["1"]) + av("x\"y", ["v"]) +
              av("href", ["/x"]) + av("style", ["color: red"]))
-    els = ["span", "custom-x", "custom-y", "b", "a", "blink", "bx-x"]
+    # custom-x is also named explicitly (shadows the patterns); custom-b-x is reached through both patterns only
+    els = ["span", "custom-x", "custom-y", "custom-b-x", "b", "a", "blink", "bx-x"]
+    alpha = alpha + av("rev", ["1"]) + av("dir", ["rtl", "up"])
     return dict(name="allow", recipes=recipes, tokens=[], attrs={e: alpha for e in els})
 
 STYLES = ["color: red", "color: red; background: url(javascript:alert(1))", "COLOR: RED; font-size: 12px", "text-align: center;;",
